@@ -99,6 +99,11 @@ CLAIMED = {
    text="sequences: every sequence of <= 3 (thorough 4) UTxOs over 14 kinds (pure ADA from dust to 2^40, assets whose summed quantity crosses 255|256, 2^32 and ~2^63 quantities, names of 0 / 1 / 32 bytes, 1..3 policies, asset-rich with little ADA, two Byron owners, one key behind three address forms) x 8 parameter configurations (tight max_tx_size, tight max_value_size, zero fee, tiny and tenfold min-ADA price, steep fee) x 3 targets x 2 hash seeds; families: 6 count families x n in {1..4, 22..26, 60} (thorough also 120, 254..257, 300) x 8 configurations x 2 seeds. Oracle: each supplied UTxO spent exactly once, only the target paid, lovelace and every asset balanced, fee >= a*|signed tx|+b with one witness per distinct key / Byron address (real-size witnesses inserted by the harness), |signed tx| <= max_tx_size, |value| <= max_value_size, min-ADA per output, no zero quantities.",
    note="Trusted: ledger.rs, refcbor, notes/ledger_rules.md §1-§3. A refusal is not judged (the property is conditional).",
    design="DESIGN.md §3 C13"),
+ "C12": dict(
+   technique="bounded-exhaustive enumeration (E1, full product) over key kinds x seeds x messages x derivation paths over a boundary index alphabet x passwords / plaintext lengths on the real wrappers, each positive case with its complete single-fault neighbourhood (every bit flip of message, signature, public key, hash, container; every truncation; every other key / password); oracles: cryptoxide Ed25519 called directly, an independent BIP32-Ed25519 V2 derivation, an independent Bech32 reading",
+   text="sign_verify: 3 key kinds x 3 seeds x 8 message lengths (0..255) with all single-bit neighbours rejected, all encodings round-tripped and cross-type Bech32 strings refused. witness_helpers: 5 helpers/key kinds x 3 seeds x 4 hashes, signature over exactly the hash bytes (256 neighbours rejected). derivation: 4 roots x all paths to depth 3 over 8 indices (thorough: depth 6 over 5 indices and depth 4 over 12 indices) including 0x7FFFFFFE/0x7FFFFFFF/0x80000000/0xFFFFFFFF: every private step against the independent derivation, soft steps commute, hardened-from-public refused, all encodings at every path end. emip3: 4 passwords x 8 plaintext lengths (0..200) x 2 salt/nonce pairs with wrong/near-miss passwords and the bit-flip / truncation neighbourhood of the container.",
+   note="Trusted: cryptoxide primitives, bech32 crate. Randomly generated keys are outside a deterministic enumeration.",
+   design="DESIGN.md §3 C12"),
 }
 
 PENDING_REASON = "check not built yet in this session (work in progress; see DESIGN.md §8 construction order)"
